@@ -33,6 +33,13 @@ func (a *AuditLogIngester) Ingest(ctx context.Context) error {
 }
 
 func (a *AuditLogIngester) Process(ctx context.Context, line string) error {
-	a.AuditLogChan <- line
-	return nil
+	// Do not block forever on a full channel: once the consumer has
+	// stopped (shutdown, or the audit processor failed) nobody will
+	// drain it, and the ingester must still be able to exit.
+	select {
+	case a.AuditLogChan <- line:
+		return nil
+	case <-ctx.Done():
+		return ctx.Err()
+	}
 }
